@@ -208,7 +208,8 @@ func (securityAssociation *SecurityAssociation) Unmarshal(b []byte) error {
 						return errors.Errorf("Illegal attribute length %d not satisfies the transform length %d",
 							attributeLength, transformLength)
 					}
-					copy(transform.VariableLengthAttributeValue, transformData[12:12+attributeLength])
+					transform.VariableLengthAttributeValue = append(transform.VariableLengthAttributeValue,
+						transformData[12:transformLength]...)
 				} else {
 					transform.AttributeValue = binary.BigEndian.Uint16(transformData[10:12])
 				}
